@@ -123,7 +123,7 @@ theorem miss_reply (cfg : Cfg) (s2 : Store) (now : Nat) (r : Req) (c : Out) : (m
 /-- **never stored**: a response that is not admissible — handler declared no caching, method not GET/HEAD,
 status filtered, a stream, 4 MiB or more, `kvarn-cache-control: none`, cache disabled — leaves nothing new in
 the cache: every entry present afterwards was there before. (So the next request recomputes.) -/
-theorem never_stored (cfg : Cfg) (s : Store) (now : Nat) (r : Req) (o : Out) (h : admit cfg r.getOrHead o = false) :
+theorem never_stored (cfg : Cfg) (s : Store) (now : Nat) (r : Req) (o : Out) (h : admissible cfg r.getOrHead o = false) :
     Sub (handle cfg s now r o).1 s := by
   unfold handle
   have hs := lookup_sub cfg s now r
@@ -140,10 +140,10 @@ theorem never_stored (cfg : Cfg) (s : Store) (now : Nat) (r : Req) (o : Out) (h 
       · simp only [hg, Bool.false_eq_true, ↓reduceIte, miss, h]; exact hs
 
 /-- the admission clauses, one by one -/
-theorem admit_false_cases (cfg : Cfg) (g : Bool) (o : Out)
+theorem admissible_false_cases (cfg : Cfg) (g : Bool) (o : Out)
     (h : o.pref = .none ∨ g = false ∨ cfg.filter o.status = false ∨ o.stream = true ∨ o.size ≥ SIZE_LIMIT ∨
-      o.kccNone = true ∨ cfg.cacheEnabled = false) : admit cfg g o = false := by
-  unfold admit
+      o.kccNone = true ∨ cfg.cacheEnabled = false) : admissible cfg g o = false := by
+  unfold admissible
   rcases h with h | h | h | h | h | h | h
   · simp [h, Pref.caches]
   · simp [h]
@@ -279,14 +279,14 @@ theorem lookup_none (cfg : Cfg) (s : Store) (now : Nat) (r : Req) (s2 : Store) (
 /-- **computed once while fresh**: after an admitted response was computed for a request, the same request
 (GET/HEAD, safe path) is answered from the cache — hit or 304 — for as long as the entry is fresh. -/
 theorem computed_once_while_fresh (cfg : Cfg) (s : Store) (t0 t1 : Nat) (r : Req) (o o' : Out)
-    (hfirst : (handle cfg s t0 r o).2 = .computed o) (hadm : admit cfg r.getOrHead o = true)
+    (hfirst : (handle cfg s t0 r o).2 = .computed o) (hadm : admissible cfg r.getOrHead o = true)
     (hsafe : r.sanitizeOk = true)
     (hfresh : ∀ l, o.lifetimeS = some l → t1 - t0 ≤ l * 1000) :
     (handle cfg (handle cfg s t0 r o).1 t1 r o').2 = .hit o ∨
     (handle cfg (handle cfg s t0 r o).1 t1 r o').2 = .notModified := by
-  have hg : r.getOrHead = true := by unfold admit at hadm; simp only [Bool.and_eq_true] at hadm; exact hadm.1.1.2
+  have hg : r.getOrHead = true := by unfold admissible at hadm; simp only [Bool.and_eq_true] at hadm; exact hadm.1.1.2
   have hce : cfg.cacheEnabled = true := by
-    unfold admit at hadm; simp only [Bool.and_eq_true] at hadm; exact hadm.1.1.1.1.1.2
+    unfold admissible at hadm; simp only [Bool.and_eq_true] at hadm; exact hadm.1.1.1.1.1.2
   have hstore : ∃ s2, get s2 (.pathQuery r.path (normQ r.query)) = none ∧ get s2 (.path r.path) = none ∧
       (handle cfg s t0 r o).1 = put s2 (storeKey r o) ⟨o, t0⟩ := by
     unfold handle at hfirst ⊢
